@@ -300,12 +300,16 @@ def run(ctx: Context) -> None:
         ctx.check('R10.4', ok, "edges are de-duplicated by sorted (unordered) node pair over that iterator", me, lp or me.node)
         mf = ctx.func(f"{TOPO}.make_face_edge_array")
         mm = Matcher(ctx, mf)
-        ok = mm.stmt('$map = {frozenset($e): $i for $i, $e in enumerate(self.edge_node_array)}') is not None
+        ok = mm.stmt('$map = {frozenset($e): $i for $i, $e in enumerate(self.edge_node_array)}') is not None \
+            or mm.has('$en = self.edge_node_array', '$map = dict(zip(map(frozenset, $en), range(len($en))))') \
+            or mm.stmt('$map = dict(zip(map(frozenset, self.edge_node_array), range(len(self.edge_node_array))))') is not None
         shp, tbl = table_shape(mf)
         if ok and tbl:
             mm.bind['fe'] = tbl
         lp = first(mm, "for $f, $pairs in self._face_and_node_pair_iter():\n    for $col, $pair in enumerate($pairs):\n        $ei = $map[frozenset($pair)]\n        $fe[$f, $col] = $ei",
-                   "for $f, $pairs in self._face_and_node_pair_iter():\n    for $col, $pair in enumerate($pairs):\n        $fe[$f, $col] = $map[frozenset($pair)]") if ok else None
+                   "for $f, $pairs in self._face_and_node_pair_iter():\n    for $col, $pair in enumerate($pairs):\n        $fe[$f, $col] = $map[frozenset($pair)]",
+                   # the leading columns of the row in one assignment
+                   "for $f, $pairs in self._face_and_node_pair_iter():\n    $row = [$map[frozenset($pair)] for $pair in $pairs]\n    $fe[$f, :len($row)] = $row") if ok else None
         ctx.check('R10.4', ok and lp is not None, "face-edge: column k of a face is the edge (looked up by unordered pair in the edge-node table in use) of its k-th node pair", mf, lp or mf.node)
         derivation_loops = {'make_face_edge_array': lp}
         ctx.check('R10.4', shp == '(self.face_count, self.max_node_count)', "face-edge has one row per face and max_node_count columns", mf,
@@ -331,7 +335,9 @@ def run(ctx: Context) -> None:
                  "    if numpy.ma.is_masked($pair):\n        continue"]
         bodies = ["    $l, $r = $pair\n    $ff[$l, $cnt[$l]] = $r\n    $ff[$r, $cnt[$r]] = $l\n    $cnt[$l] += 1\n    $cnt[$r] += 1",
                   "    $l, $r = $pair\n    $ff[$l, $cnt[$l]] = $r\n    $cnt[$l] += 1\n    $ff[$r, $cnt[$r]] = $l\n    $cnt[$r] += 1"]
-        lp = first(mm, *[f"{h}\n{sk}\n{b_}" for h in heads for sk in skips for b_ in bodies])
+        keeps = ["    if not numpy.any(numpy.ma.getmask($pair)):", "    if not numpy.ma.getmask($pair).any():"]
+        lp = first(mm, *([f"{h}\n{sk}\n{b_}" for h in heads for sk in skips for b_ in bodies]
+                         + [f"{h}\n{kp}\n" + '\n'.join('    ' + line for line in b_.split('\n')) for h in heads for kp in keeps for b_ in bodies]))
         ok = lp is not None and mm.stmt('$cnt = numpy.zeros(self.face_count, dtype=self.sensible_dtype)') is not None
         ctx.check('R10.4', ok, "face-face: each interior edge links its two faces in both directions (symmetric adjacency); boundary edges are skipped", mff, lp or mff.node)
         derivation_loops['make_face_face_array'] = lp
